@@ -58,6 +58,12 @@ def main():
             with C.Lock():
                 t0 = time.time()
                 data, problems = C.run_extract()
+                if data is None:
+                    # the translator could not read the current source: keep the last tables for the search
+                    try:
+                        data = json.load(open(os.path.join(C.BUILD, "gen.json")))
+                    except Exception:
+                        data = None
                 ctx.gen = data
                 for p in problems:
                     rep.tie_break("translator", p["where"], p["what"])
@@ -97,6 +103,7 @@ def main():
             build_ok = True
             n_thm = len(C.theorems_in(os.path.join(C.LEAN, "MoSql", "Props", pid + ".lean")))
 
+        ctx.build_ok = build_ok
         if a.replay:
             payload = json.load(open(a.replay))
             still = mod.replay(ctx, payload)
